@@ -110,14 +110,14 @@ def _on_alarm(*_a):
 # terminate" are the step budgets below, counted inside the parser.
 PREDICT_TIMEOUT_S = 90.0
 # partial trees yielded by `PacketIterativeParser.consume` for ONE history / `Column.add` calls for ONE history.
-# Terminating cases of this check stay below 150 trees and 20k admissions (histories of <= 9 messages).
+# Terminating cases of this check stay below 310 trees and 3k admissions (histories of <= 9 messages).
 MAX_PARTIAL_TREES = 600
 MAX_ADMISSIONS = 400_000
 # A partial tree of a history of n messages has at most O(n * grammar size) nodes (every message hangs on a path
 # no longer than the grammar is deep per unfolding, unfoldings consume messages); the non-terminating prefix
 # parses yield EVER LARGER trees (an iteration that matched nothing is stacked again and again: 2.5 nodes per
-# yielded tree).  Over the tree budget + a tree beyond the size bound = unbounded; over the tree budget with
-# all trees within the bound = exponentially ambiguous but finite.
+# yielded tree).  A tree beyond the size bound = unbounded (decided at once); over the tree budget with all trees
+# within the bound = exponentially ambiguous but finite.
 SIZE_FACTOR = 6
 _STEPS = {"trees": 0, "adds": 0, "max_size": 0, "size_bound": 10 ** 9, "armed": False}
 
@@ -136,9 +136,9 @@ def _install_step_counters():
             if _STEPS["armed"]:
                 _STEPS["trees"] += 1
                 _STEPS["max_size"] = max(_STEPS["max_size"], item[0].size())
+                if _STEPS["max_size"] > _STEPS["size_bound"]:
+                    raise PrefixParseUnbounded()         # larger than any partial tree of this history can be
                 if _STEPS["trees"] > MAX_PARTIAL_TREES:
-                    if _STEPS["max_size"] > _STEPS["size_bound"]:
-                        raise PrefixParseUnbounded()
                     raise PrefixParseTooAmbiguous()
             yield item
 
